@@ -20,3 +20,12 @@ pub fn block_on_real<F: Future>(f: F) -> F::Output {
         .unwrap()
         .block_on(f)
 }
+
+/// Under the paused clock tokio fires a timer at exactly its (millisecond-rounded) deadline, so
+/// `Instant::now()` equals the deadline - something a real, always slightly late timer never
+/// shows (and strict comparisons such as `last_activity < now - T` then never become true).
+/// Giving the clock a persistent sub-millisecond offset makes every timer fire 0.5-1.5 ms late,
+/// as in real time. Call once at the start of a paused-clock case.
+pub async fn skew_clock() {
+    tokio::time::advance(std::time::Duration::from_micros(500)).await;
+}
